@@ -37,7 +37,8 @@ def run(chk: Check) -> None:
     rets = [n for n in cfg.nodes if n.kind == 'return']
     waits = [r for r in rets if isinstance(r.ast.value, ast.Call) and last_name(r.ast.value) == 'Wait']
     conts = [r for r in rets if isinstance(r.ast.value, ast.Call) and last_name(r.ast.value) == 'Continue']
-    ok = len(waits) == 1 and len(waits[0].ast.value.args) == 3 and ff.canon.key(waits[0].ast.value.args[2]) == 'self._awaitables' and norm(waits[0].ast.value.args[0]) == 'self._do_step'
+    # (one Wait, or one per way of getting there when the choice of the next command is a helper used at two places)
+    ok = len(waits) >= 1 and all(len(w.ast.value.args) == 3 and ff.canon.key(w.ast.value.args[2]) == 'self._awaitables' and norm(w.ast.value.args[0]) == 'self._do_step' for w in waits)
     chk.ob('DOM-barrier-wait', ds, ok, 'the awaitables registered during the step are handed to the WAITING state, which continues with the next outline step', kind='wait-carries-awaitables')
     ok = bool(waits) and all(('T', 'self._awaitables') in ff.at(w) for w in waits) and all(('F', 'self._awaitables') in ff.at(c) for c in conts) and bool(conts)
     chk.ob('DOM-barrier-wait', ds, ok, 'the chain continues directly (Continue) only when nothing was registered; otherwise it waits', kind='continue-only-if-none')
@@ -53,7 +54,7 @@ def run(chk: Check) -> None:
         ok = all(any((a[0] == 'isinst' and a[1] == rvn) or (a[0] == 'T' and a[1] == f'isinstance({rvn}, ToContext)') for a in ff.at(x)) for x in tc)
         # decision table: when the value IS a ToContext, every path that goes on (Wait / Continue) has registered it first
         n_on = 0
-        for path in paths_under(ff, {f'isinstance({rvn}, ToContext)': True}, frozen=[rvn]):
+        for path in paths_under(ff, {f'isinstance({rvn}, ToContext)': True, f'{rvn} is None': False}, frozen=[rvn]):
             ends = [m for m in path if m in waits or m in conts]
             if ends:
                 n_on += 1
